@@ -53,6 +53,14 @@ def generate(rng, tier):
         p.update(ndim=nd, levelmin=rng.choice([1, 2]), levelmax=rng.choice([26, 28, 30]) if nd == 1 else 26, refine_p=0.05, maxcells=300,
                  nboundary=0, ordering=rng.choice(["planar", "angular"]), bound_frac=None, bound_keys=None,
                  chain=[round(rng.uniform(0.05, 0.95), 6) + 1.0 / 3e7 for _ in range(nd)], part=None, prune=[])
+    elif rng.random() < 0.004:
+        # a production-size decomposition: several hundred ranks (rank numbers beyond 256)
+        nd = rng.choice([2, 3])
+        p.update(ndim=nd, ncpu=rng.choice([258, 300, 300, 513]), ordering=rng.choice(["planar", "angular"]) if nd == 2 else rng.choice(["hilbert", "planar"]),
+                 bound_frac=None, bound_keys=None, levelmin=rng.choice([2, 3]), levelmax=rng.choice([4, 5]) if nd == 2 else 4, maxcells=1500, nboundary=0,
+                 ghost_p=rng.choice([0.0, 0.05]), part=None, sink=None, prune=[])
+        if p["ordering"] == "hilbert":
+            p["bound_frac"] = sorted(rng.random() for _ in range(p["ncpu"] - 1))
     case = {"world": p, "nout_arg": rng.choice(["explicit", "explicit", "minus1"]), "glob_seed": rng.getrandbits(32), "prior": None,
             "later": rng.choice([None] * 8 + ["full", "capped"])}
     # the full load must not depend on what the dataset object was used for before (C15's concern, exercised here too)
